@@ -89,7 +89,7 @@ fn check1(backend: &str, f: &Fn1, x: f32, r: &mut Report, maxerr: Option<&Mutex<
             let (ok, e) = judge(got, want, f.b);
             if let Some(m) = maxerr { if e.is_finite() { let mut g = m.lock().unwrap(); if e > *g { *g = e; } } }
             if !ok {
-                let cls = if x != 0.0 && x.abs() < 1e-18 { "tiny" } else if x < 0.0 { "neg" } else { "pos" };
+                let cls = if x == 0.0 { if x.is_sign_negative() { "negzero" } else { "zero" } } else if x.abs() < 1e-18 { "tiny" } else if x < 0.0 { "neg" } else { "pos" };
                 r.violation(format!("{backend}-{}|{cls}|{:#010x}", f.name, x.to_bits()), format!("{backend}::{}({x:e}) = {got:e}, reference {want:e} (err {e:.3e})", f.name), obj! {"kind" => "fn1", "backend" => backend, "name" => f.name, "x" => fbits(x)});
             } else if got != x { r.nontrivial(); }
         }
@@ -100,6 +100,7 @@ fn finite(x: f32) -> bool { x.is_finite() }
 fn lt63(x: f32) -> bool { x.is_finite() && x.abs() < 9.2e18 }
 fn lt31(x: f32) -> bool { x.is_finite() && x.abs() < 2147483648.0 }
 fn pos_normal(x: f32) -> bool { x.is_normal() && x > 0.0 && x < 1e37 }
+fn pos_normal_or_zero(x: f32) -> bool { x == 0.0 || pos_normal(x) }
 fn nonneg(x: f32) -> bool { x.is_finite() && x >= 0.0 && (x == 0.0 || x.is_normal()) }
 fn unit(x: f32) -> bool { x >= -1.0 && x <= 1.0 }
 fn angle1e3(x: f32) -> bool { x.is_finite() && x.abs() <= 1000.0 }
@@ -150,7 +151,7 @@ fn mm_fns() -> Vec<Fn1> {
         Fn1 { name: "floor", f: mm::floor, r: rfloor, dom: lt31, b: Bound::Exact, dom_txt: "finite |x| < 2^31 (i32 cast range)" },
         Fn1 { name: "abs", f: mm::abs, r: rabs, dom: finite, b: Bound::Exact, dom_txt: "all finite" },
         // bit-trick sqrt + 1 Newton step: measured below
-        Fn1 { name: "sqrt", f: mm::sqrt, r: rsqrt, dom: pos_normal, b: Bound::Rel(2.5e-3), dom_txt: "positive normal" },
+        Fn1 { name: "sqrt", f: mm::sqrt, r: rsqrt, dom: pos_normal_or_zero, b: Bound::Rel(2.5e-3), dom_txt: "positive normal, and +-0 (abs 1e-9)" },
         Fn1 { name: "recip_sqrt", f: mm::recip_sqrt, r: rrsqrt, dom: pos_normal, b: Bound::Rel(2.7e-3), dom_txt: "positive normal" },
         Fn1 { name: "sin", f: mm::sin, r: rsin, dom: angle1e3, b: Bound::Abs(2.0e-3), dom_txt: "|x| <= 1000" },
         Fn1 { name: "cos", f: mm::cos, r: rcos, dom: angle1e3, b: Bound::Abs(2.0e-3), dom_txt: "|x| <= 1000" },
